@@ -237,6 +237,7 @@ type event struct {
 	prev   uint64
 	snap   uint64
 	cfg    Configs
+	raw    [][]byte // precompact: copies of the entries prev+1..commit
 }
 
 // ---------------------------------------------------------------- cluster
@@ -254,6 +255,7 @@ type pendingTask struct {
 	checked  bool
 	xferTerm uint64
 	cfgNew   Config
+	cfgInvalid string // non-empty: why the leader has to refuse this request
 	floorPos int // highest position of an update observed complete before this one was submitted
 }
 
@@ -943,6 +945,21 @@ func (c *cluster) onHook(point, dir string) {
 	if point == "commit.advance" && !inc.dead.Load() {
 		c.led.onCommitAdvance(inc)
 	}
+	if (point == "snaptaken.precompact" || point == "ldr.precompact") && !inc.dead.Load() {
+		// own goroutine, right before segments are removed: what is committed here
+		// is recorded now, the next observation would no longer find it (automatic
+		// snapshots compact entries appended and committed within one long step)
+		r := inc.r
+		ev := event{kind: "precompact", nid: inc.id, inc: inc.inc, term: r.term, prev: r.log.PrevIndex(), commit: r.commitIndex}
+		for i := ev.prev + 1; i <= r.commitIndex && i <= r.log.LastIndex(); i++ {
+			b, err := r.log.Get(i)
+			if err != nil {
+				break
+			}
+			ev.raw = append(ev.raw, append([]byte(nil), b...))
+		}
+		c.pushEvent(ev)
+	}
 	if doCrash {
 		inc.blocked = make(chan struct{})
 		c.killIncarnation(inc, arm.fin)
@@ -1153,7 +1170,9 @@ func (c *cluster) onSnapshotStored(inc *incarnation) {
 			ids[i] = binary.LittleEndian.Uint64(b[8*i:])
 		}
 		m := meta
-		c.pushEvent(event{kind: "snapshot", nid: inc.id, inc: inc.inc, meta: &m, ids: ids})
+		// (commit index of the node at this instant: with automatic snapshots an entry
+		// may be committed and snapshotted between two observations)
+		c.pushEvent(event{kind: "snapshot", nid: inc.id, inc: inc.inc, meta: &m, ids: ids, commit: inc.r.commitIndex})
 	}
 }
 
